@@ -87,6 +87,43 @@ fn check_run(cx: &mut Cx, data: &[u8], cuts: &[usize], reply: &str)
 	}
 }
 
+/// LARGE single calls (`big <len> <offset> <seed>`): one `update_slice` over `len` bytes that start at `offset` of a buffer (non-zero
+/// pattern) against the bit-serial oracle, byte-wise feeding and feeding in two halves; too long for the model's line protocol
+fn check_big(cx: &mut Cx, len: usize, offset: usize, seed: u64)
+{
+	let input = format!("big {len} {offset} {seed}");
+	let mut rng = Rng::new(seed);
+	let mut buf = vec![0u8; len + offset];
+	for chunk in buf.chunks_mut(8) {let v = rng.next().to_le_bytes(); let n = chunk.len(); chunk.copy_from_slice(&v[..n]);}
+	if let Some(last) = buf.last_mut() {*last |= 1;}
+	let data = &buf[offset..];
+	let r = guarded(||
+	{
+		let mut w = Crc::new();
+		w.update_slice(data);
+		let mut b = Crc::new();
+		for &x in data {b.update(x);}
+		let mut h = Crc::new();
+		h.update_slice(&data[..len / 2]);
+		h.update_slice(&data[len / 2..]);
+		(w.get_value(), b.get_value(), h.get_value())
+	});
+	let want = bitwise(0xFFFF_FFFF, data);
+	cx.report.case(Some(&format!("{want:08x}")));
+	cx.report.hit(if len >= 1 << 20 {"large single call (>= 1 MiB)"} else if len >= 1 << 16 {"large single call (>= 64 KiB)"} else {"slice at an unaligned offset"});
+	match r
+	{
+		Err(p) => cx.report.oracle_fail(input, format!("panic: {p}")),
+		Ok((whole, bytewise, halves)) =>
+		{
+			if whole != want || bytewise != want || halves != want
+			{
+				cx.report.oracle_fail(input, format!("CRC-32/MPEG-2 of {len} bytes is {want:08x}; one update_slice call gives {whole:08x}, byte-wise {bytewise:08x}, two halves {halves:08x}"));
+			}
+		},
+	}
+}
+
 pub fn run(_id: &str, cx: &mut Cx)
 {
 	cx.report.rule = "table: all 256 entries; update: every (top byte, next byte) pair x 5 low-bit patterns exhaustively plus random 32-bit states; \
@@ -112,6 +149,11 @@ non-trivial = non-empty input; distinct = distinct resulting register values".to
 				check_run(cx, &data, &cuts, &reply);
 			},
 			["table"] => table(cx),
+			["big", len, off, seed] => match (len.parse(), off.parse(), seed.parse())
+			{
+				(Ok(len), Ok(off), Ok(seed)) => check_big(cx, len, off, seed),
+				_ => cx.report.oracle_fail(input.clone(), "unrecognised replay input"),
+			},
 			_ => cx.report.oracle_fail(input.clone(), "unrecognised replay input"),
 		}
 		return;
@@ -159,6 +201,14 @@ non-trivial = non-empty input; distinct = distinct resulting register values".to
 		for ((s, b), r) in chunk.iter().zip(replies.iter()) {check_update(cx, *s, *b, r);}
 	}
 	cx.report.sample("update ffffffff 31 -> ".to_owned() + &format!("{:08x}", real_step_via_table(0xFFFF_FFFF, 0x31)));
+
+	// large single calls and slices at every offset 0..7 of a buffer
+	for len in [(1usize << 20) - 1, 1 << 20, (1 << 20) + 1, (4 << 20) + 3, (1 << 16) - 1, 1 << 16, (1 << 16) + 1, 65_537 * 3]
+	{
+		let seed = cx.rng.next();
+		check_big(cx, len, (seed % 8) as usize, seed);
+	}
+	for off in 0..8 {for len in [0usize, 1, 3, 4, 7, 8, 9, 63, 64, 65, 4099] {let seed = cx.rng.next(); check_big(cx, len, off, seed);}}
 
 	// strings
 	let nstr = if cx.thorough() {60_000} else {6_000};
